@@ -82,8 +82,9 @@ def instantiate_type(
         # Create a copy of the instantiation so we can modify it.
         instantiation = deepcopy(instantiations[scoped_idx])
         # Replace the part of the template with the instantiation
-        instantiation.name = str_arg_typename.replace(scoped_template,
-                                                      instantiation.name)
+        instantiation.name = "::".join(
+            instantiation.name if part == scoped_template else part
+            for part in str_arg_typename.split("::"))
         return parser.Type(
             typename=instantiation,
             is_const=ctype.is_const,
